@@ -196,6 +196,16 @@ func (s c5RefSink) Write(p []byte) (int, error) {
 	return len(p), nil
 }
 
+// seenCtx is what GetCtx reports for a logger with this model: ids 4 and 5 are a
+// derivation that was explicitly given the background context and nil (both
+// replace an inherited Go context, and both read back as the background context).
+func (m c5Model) seenCtx() int {
+	if m.ctxID >= 4 {
+		return 0
+	}
+	return m.ctxID
+}
+
 func ctxID(c context.Context) int {
 	if c == nil {
 		return -1
@@ -433,7 +443,7 @@ func (r *c5Run) emitChecked(e *zerolog.Event, ev c5Event, m c5Model, what string
 		}
 	}
 	for _, s := range seen {
-		own := m.ctxID
+		own := m.seenCtx()
 		strict := strings.HasPrefix(s.where, "hook") || s.where == "Object" || s.where == "EmbedObject"
 		if s.id == own || (!strict && s.id == 0) {
 			continue
@@ -496,7 +506,7 @@ func (r *c5Run) derive(p *c5Node) *c5Node {
 			long = applyCtx(c, ops2).Logger()
 			short = c.Logger()
 		}
-		r.checkSeen(p.m.ctxID, fmt.Sprintf("deriving two loggers from one Context of n%d", p.id))
+		r.checkSeen(p.m.seenCtx(), fmt.Sprintf("deriving two loggers from one Context of n%d", p.id))
 		ms := m.clone()
 		ms.fields = append(ms.fields, ops1)
 		ml := m.clone()
@@ -545,7 +555,7 @@ func (r *c5Run) derive(p *c5Node) *c5Node {
 		m.fields = append(m.fields, ops)
 		r.task().seen = nil
 		lg := applyCtx(c, ops).Logger()
-		r.checkSeen(p.m.ctxID, fmt.Sprintf("deriving n%d.%s(%s)", p.id, what, opsString(ops)))
+		r.checkSeen(p.m.seenCtx(), fmt.Sprintf("deriving n%d.%s(%s)", p.id, what, opsString(ops)))
 		n := r.addNode(lg, m, fmt.Sprintf("n%d.%s(%s)", p.id, what, opsString(ops)))
 		n.fromWith = true
 		return n
@@ -603,13 +613,28 @@ func (r *c5Run) derive(p *c5Node) *c5Node {
 		return n
 	case 5:
 		m.ctxID = 1 + ch.Intn(len(r.ctxs)-1)
+		if m.ctxID >= 4 && p.m.seenCtx() != 0 {
+			zsim.Probe("go_context_detached")
+		}
 		n := r.addNode(p.lg.With().Ctx(r.ctxs[m.ctxID]).Logger(), m, fmt.Sprintf("n%d.With().Ctx(#%d)", p.id, m.ctxID))
 		n.fromWith = true
 		return n
 	case 6:
 		m.stack = true
 		m.fields = append(m.fields, nil)
-		n := r.addNode(p.lg.With().Stack().Logger(), m, fmt.Sprintf("n%d.With().Stack()", p.id))
+		var lg zerolog.Logger
+		if r.single && ch.Chance(1, 3) {
+			// no stack marshaler is installed while the logger is derived; one is by the time
+			// it logs: Stack() is a property of the logger, the marshaler is looked up per error
+			old := zerolog.ErrorStackMarshaler
+			zerolog.ErrorStackMarshaler = nil
+			lg = p.lg.With().Stack().Logger()
+			zerolog.ErrorStackMarshaler = old
+			zsim.Probe("stack_before_marshaler_installed")
+		} else {
+			lg = p.lg.With().Stack().Logger()
+		}
+		n := r.addNode(lg, m, fmt.Sprintf("n%d.With().Stack()", p.id))
 		n.fromWith = true
 		return n
 	default:
@@ -620,7 +645,7 @@ func (r *c5Run) derive(p *c5Node) *c5Node {
 		r.task().seen = nil
 		lg := applyCtx(p.lg.With(), ops).Logger()
 		lg.UpdateContext(func(c zerolog.Context) zerolog.Context { zsim.Yield("UpdateContext"); return applyCtx(c, ops2) })
-		r.checkSeen(p.m.ctxID, fmt.Sprintf("deriving n%d.With+UpdateContext", p.id))
+		r.checkSeen(p.m.seenCtx(), fmt.Sprintf("deriving n%d.With+UpdateContext", p.id))
 		n := r.addNode(lg, m, fmt.Sprintf("n%d.With(%s)+UpdateContext(%s)", p.id, opsString(ops), opsString(ops2)))
 		n.fromWith = true
 		return n
@@ -658,7 +683,7 @@ func (r *c5Run) lateUpdate(n *c5Node) {
 	m.fields = append(m.fields, ops)
 	n.m = m
 	zsim.Probe("late_update_context")
-	r.checkSeen(n.m.ctxID, fmt.Sprintf("node %d UpdateContext(reset=%v)", n.id, reset))
+	r.checkSeen(n.m.seenCtx(), fmt.Sprintf("node %d UpdateContext(reset=%v)", n.id, reset))
 	zsim.Log("node %d: UpdateContext(reset=%v, %s)", n.id, reset, opsString(ops))
 }
 
@@ -753,6 +778,7 @@ func (c05World) Run(prop string, ch *zsim.Choices, trace bool) *RunResult {
 		for i := 1; i <= 3; i++ {
 			r.ctxs = append(r.ctxs, context.WithValue(context.Background(), c5Key{}, i))
 		}
+		r.ctxs = append(r.ctxs, context.Background(), nil)
 		s.ArmDraw([]string{"log.go", "context.go", "event.go", "array.go", "ctx.go", "fields.go"})
 		nRoots := 1 + ch.Intn(2)
 		for i := 0; i < nRoots; i++ {
